@@ -64,7 +64,7 @@ impl<T: Clone> Vector<T> {
     pub fn iter(&self) -> (r: SeqIt<&T>) ensures r@.len() == self@.len(), forall|i: int| 0 <= i < self@.len() ==> *(#[trigger] r@[i]) == self@[i] { unimplemented!() }
     #[verifier::external_body]
     pub fn split_at(self, i: usize) -> (r: (Vector<T>, Vector<T>)) requires i <= self@.len() ensures r.0@ == self@.subrange(0, i as int), r.1@ == self@.subrange(i as int, self@.len() as int) { unimplemented!() }
-    // imbl: skip(count) panics if count > len
+    // imbl 5: skip(count) beyond the length gives the empty vector (measured by depcheck; it does not panic)
     #[verifier::external_body]
-    pub fn skip(&self, count: usize) -> (r: Vector<T>) requires count <= self@.len() ensures r@ == self@.subrange(count as int, self@.len() as int) { unimplemented!() }
+    pub fn skip(&self, count: usize) -> (r: Vector<T>) ensures r@ == (if count <= self@.len() { self@.subrange(count as int, self@.len() as int) } else { Seq::empty() }) { unimplemented!() }
 }
